@@ -276,3 +276,12 @@ package keeper
 //@   loop L1 invariant forall j int :: 0 <= j && j < len(list) ==> list[j] == rawget(ExpiredData, itkey(j)) && itkey(j) == keyof(ExpiredData, list[j].Height)
 //@   loop L1 invariant forall j int :: 0 <= j && j < len(list) ==> contains(list, list[j])
 //@   loop L1 decreases [C02.getall.expireddata.term] itlen() - itpos()
+
+// UpdatePermission: only the owner changes the read/write grants of a model, and nothing else of it.
+// (The handler sao.UpdataPermission that calls this after verifySignature contains a closure with a loop, which is outside
+// the verified subset; its signature check is therefore not under contract.)
+//@ func (Keeper) UpdatePermission(ctx, owner, dataId, readonlyDids, readwriteDids) (err)
+//@   modifies Metadata[dataId]
+//@   ensures [C09.updateperm.auth] err == nil ==> old(has(Metadata, dataId)) && old(Metadata[dataId].Owner) == owner
+//@   ensures [C09.updateperm.fields] err == nil ==> has(Metadata, dataId) && Metadata[dataId] == with(with(old(Metadata[dataId]), ReadonlyDids, readonlyDids), ReadwriteDids, readwriteDids)
+//@   ensures [C09.updateperm.err] err != nil ==> Metadata[dataId] == old(Metadata[dataId]) && (has(Metadata, dataId) <==> old(has(Metadata, dataId)))
